@@ -5,6 +5,10 @@ ALL = ["C%02d" % i for i in range(1, 21)]
 technique = "bounded symbolic execution of the real go/ssa of /repo (own engine gosym) with SMT (z3 5.1.0) deciding every assertion / panic / branch over all inputs within the stated bounds; counterexamples replayed natively against the real build"
 level_note = "trusted: go/packages+go/ssa faithful to the compiler; the gosym interpreter and its intrinsics (listed in the evidence); z3; per-property stubs listed in the evidence; bounds as stated in evidence.coverage.bounds"
 claimed = {
+ "C01": "rely/guarantee over the real Scheduler.Schedule SSA: one pass from an arbitrary invariant state with symbolic worker interference at every atomic operation (all 3-stage graphs, symbolic allow_failure/outcome/condition): at every launch all dependencies are finished in memory at that instant; the real worker closure publishes a status only after the task returned; thread-mode whole runs (preemption bound 1; thorough 2) cross-check end to end",
+ "C02": "same harnesses: the invariant (status compatible with the reference outcome class, error flag consistent) is preserved by every pass and every worker step, and at Schedule's return every stage's status equals the reference model and the returned error is non-nil iff a stage failed hard - for every interleaving, so the outcome is a function of graph and outcomes only",
+ "C03": "same harnesses: a stage is launched only from Waiting, at most once per pass, nothing ever returns to Waiting; a pass never blocks or cancels; with nothing in flight a pass strictly reduces the number of waiting stages; at return nothing is waiting or running; thread-mode whole runs: Schedule returns and every eligible stage ran exactly once",
+ "C04": "same harnesses: whatever other stages are doing, a pass that finds eligible stages starts at least one and never blocks; no task ever runs on the scheduling thread (a scheduler running stages inline passes the test-suite but fails here); the current code's stronger behaviour (all eligible in one pass) is a cover goal",
  "C09": "environment: one name at every subset of the six levels with independent symbolic values from an ordered 3-element domain, direct and as a stage, through the real buildTask/buildPipeline, TaskRunner.Run, TaskCompiler, runStage, DefaultExecutor.Execute and mvdan's expand.ListEnviron/Get: the command sees the highest level's value, unrelated parent variables pass through, TASK_NAME is the task name; directories: every subset of stage/task/context dir for hooks and command",
  "C10": "template variables: every subset of {configuration (as in cfg.Variables), --set, task, stage} through the real Before hook, rootAction, buildTaskRunner, runTask/runPipeline, TaskRunner.Run, compiler, runStage and Execute up to the template call; undefined variable => task fails and the command never reaches the interpreter; CLI arguments: every vector of up to 4 (thorough 5) words after the target over {--, t1, -x, a=b, w}: .Args/.ArgsList/$ARGS are exactly the words after the first --",
  "C06": "every task shape with up to 3 commands x 2 (thorough 3) variations x 2 before x 2 after x optional condition, run through the real TaskRunner.Run/before/after/execute/CompileTask with a symbolic outcome per executed command (success, any exit status 1..255, non-status error) and symbolic allow_failure: the sequence of executed commands and the skipped flag equal the reference semantics on every path",
